@@ -125,6 +125,7 @@ func main() {
 				t0 = start
 			}
 			c := newCtx(p, id, *tier)
+			resetOrdinals()
 			def.run(c)
 			var variants []variantResult
 			if *tier == "thorough" && !*quiet {
